@@ -306,21 +306,26 @@ KNOWN = {
                                   "ref-declarations of undeclared MetaData types are not diagnosed; they panic",
     # ---- C08
     "C08:alias_long_opts:rejected": "option values uint8..uint64 are rejected (see C12:false-positive:OptValue:alias)",
-    "C08:default_options:*": "FixedStringPadFromLeft = true without FixedStringPadChar: NewConfiguration takes the pad character from the Go "
+    "C08:default_options:outputs-differ:*": "FixedStringPadFromLeft = true without FixedStringPadChar: NewConfiguration takes the pad character from the Go "
                              "literal \" \" (the bare blank, model.go:142) where the option value and the built-in default are the token text "
                              "quote-blank-quote: 'explicit default options versus none' changes Config.Padding.PadChar; Rust/Go/Java emit "
                              "'..., 4,  , true)' (no character literal at all) without the explicit option",
-    "C08:expand_keys:*": "VisitMatchPair collects the DIGITS keys of a list before its STRING keys (packet_dsl_parser.go:476-481): a list that "
+    "C08:default_options:model-differs-outputs-same": "as C08:default_options:outputs-differ (the models differ, the six outputs happen to coincide for this program)",
+    "C08:expand_keys:outputs-differ:*": "VisitMatchPair collects the DIGITS keys of a list before its STRING keys (packet_dsl_parser.go:476-481): a list that "
                          "mixes both kinds is not its pairs in source order (the registration order in the generated factories changes)",
+    "C08:expand_keys:model-differs-outputs-same": "as C08:expand_keys:outputs-differ (the models differ, the six outputs happen to coincide for this program)",
     "C08:attr-leak:shared-metadata-fixed": "a padding attribute on a MetaData-typed fixed string writes the FixedStringFieldAttribute shared by "
                                            "the MetaData entry, its aliases and every field of that type (packet_dsl_parser.go:230, :259)",
-    "C08:inline_meta:*": "a MetaData-typed fixed string shares its attribute object, so a padding attribute on one field pads all of them; "
+    "C08:inline_meta:outputs-differ:*": "a MetaData-typed fixed string shares its attribute object, so a padding attribute on one field pads all of them; "
                          "the inlined spelling pads only the field it is written on",
+    "C08:inline_meta:model-differs-outputs-same": "as C08:inline_meta:outputs-differ (the models differ, the six outputs happen to coincide for this program)",
 }
 
 
 def is_known(dev):
     import fnmatch
+    if dev.endswith(":model-disagrees"):
+        return False
     return any(dev == k or fnmatch.fnmatchcase(dev, k) for k in KNOWN)
 
 
@@ -329,6 +334,22 @@ FAULT_TO_DIAG = {"DupPacket": "DupPacket", "DupMeta": "DupMeta", "DupOption": "O
                  "SecondLen": "LenDup", "UndeclaredPacket": "UnknownPacket", "UndeclaredMatchKey": None, "UndeclaredLenTarget": None}
 
 ALIAS_VALUES = {"uint8", "uint16", "uint32", "uint64"}
+
+
+DIAG_RE = re.compile(r'\((\d+) (\S+) "((?:[^"\\]|\\.)*)"\)')
+
+
+def resp_of_canon(text):
+    """The canonical outcome text of the MODEL, as far as classify_c12 needs it."""
+    if text.startswith("PANIC "):
+        return {"panic": "model", "frames": [text[6:].strip()]}
+    m = re.search(r"\(diags \[(.*)\]\)\s*$", text, re.S)
+    errs = []
+    if m:
+        for d in DIAG_RE.finditer(m.group(1)):
+            msg = re.sub(r"\\x([0-9a-f]{2})", lambda x: chr(int(x.group(1), 16)), d.group(3))
+            errs.append({"line": int(d.group(1)), "msg": msg, "kind": d.group(2)})
+    return {"model": {"errors": errs}}
 
 
 def classify_c12(spec, resp):
@@ -341,7 +362,7 @@ def classify_c12(spec, resp):
         for k, _ in spec:
             devs.append("C12:%s:panic:%s" % (k, site))
         return devs
-    real = [(msg_kind(e["msg"]), e["line"], e["msg"]) for e in resp["model"]["errors"]]
+    real = [(e.get("kind") or msg_kind(e["msg"]), e["line"], e["msg"]) for e in resp["model"]["errors"]]
     rejected = bool(real)
     left = list(real)
     unmatched = []
@@ -434,6 +455,10 @@ WITNESSES = [
 # hand-made well-formed programs that also go through the C08 rewrites (when the real compiler accepts them and all six
 # generators produce output)
 C08_EXTRA = [
+    # MetaData entries of every fixed-string flavour used as field types, no attribute on the fields (so that
+    # 'MetaData-typed field versus the inlined type' is exercised where the model says the meaning is the same)
+    "MetaData M { zchar[8] Account, u16 MsgType, char[4] S, Account Alias, string N, } root packet Order { MsgType, Account, repeat Account Others, S s1, "
+    "repeat S ss, Alias al, N, repeat N ns, G { Account, S, }, }",
     "options { FixedStringPadFromLeft = true; } packet B { char[4] x, } root packet A { u8 k, match k as m { 1 : B }, }",
     "packet B { u8 x, } root packet A { u8 k, match k as m { [1, \"a\", 2] : B }, }",
     "MetaData M { char[4] S, zchar[6] Z, S T, } packet B { @leftPad('0') S a, S b, T c, Z d, @rightPad(' ') Z e, } "
@@ -738,10 +763,30 @@ def main():
     mismatches = []          # (case id / name, what, message)
     deviations = collections.Counter()
     examples = {}
+    full_text = {}
 
-    def dev(d, c):
-        deviations[d] += 1
-        examples.setdefault(d, excerpt(c.data if isinstance(c, Case) else c, 300))
+    devlist = []             # (class, case, disagree: None = decide from the mismatches of the case)
+
+    def dev(d, c, disagree=None):
+        devlist.append((d, c, disagree))
+
+    def settle_deviations():
+        """A recorded finding is behaviour the faithful model REPRODUCES: a deviation on a text on which
+        the real code disagrees with the model (in the respect that matters for the class) is tagged
+        ':model-disagrees' and can never match a recorded class."""
+        bad = set(m[0] for m in mismatches if m[1] in ("visit", "model", "to_bmodel", "nopanic_frag"))
+        for d, c, disagree in devlist:
+            if disagree is None:
+                disagree = isinstance(c, Case) and c.id in bad
+            if disagree:
+                d += ":model-disagrees"
+            deviations[d] += 1
+            examples.setdefault(d, excerpt(c.data if isinstance(c, Case) else c, 300))
+            data = c.data if isinstance(c, Case) else c
+            if isinstance(data, bytes):
+                data = data.decode("utf-8", "replace")
+            if isinstance(data, str) and (d not in full_text or len(data) < len(full_text[d])):
+                full_text[d] = data
 
     raw, bases, rng = collect(a.seed, a.n)
     cases = [Case(i, k, d, e) for i, (k, d, e) in enumerate(raw)]
@@ -862,6 +907,7 @@ def main():
 
     # ---------------------------------------------------------------- correspondence
     n_cmp = 0
+    model_text = {}
     outcome_count = collections.Counter()
     for c in valid:
         m = got.get("V%d" % c.id)
@@ -870,6 +916,7 @@ def main():
             continue
         n_cmp += 1
         m = renumber(m)
+        model_text[c.id] = m
         outcome_count[c.real.split(" ")[0] + (" " + SITE_SHORT.get(c.real[6:], c.real[6:]) if c.real.startswith("PANIC") else "")] += 1
         if "(too-deep)" in c.real:
             # the hook's dump is cut at nesting depth 64: only the outcome kind can be compared
@@ -893,6 +940,8 @@ def main():
         c12["texts"] += 1
         c12["faults"] += len(spec)
         devs = classify_c12(spec, c.visit)
+        mtxt = model_text.get(c.id)
+        devs_model = classify_c12(spec, resp_of_canon(mtxt)) if mtxt is not None else []
         if not spec:
             c12["well-formed"] += 1
             if not devs:
@@ -903,8 +952,13 @@ def main():
                 "dup-packet", "dup-meta", "dup-option", "dup-field", "dup-match-key", "second-root", "unknown-option",
                 "length-outside-root", "second-length", "undeclared-packet", "undeclared-match-key", "undeclared-length-target"):
             mismatches.append((c.id, "spec", "fault injection %s (%s) is not seen by `faults`  %s" % (c.kind, (c.extra or {}).get("site"), excerpt(c.data))))
+        left_m = list(devs_model)
         for d in devs:
-            dev(d, c)
+            if d in left_m:
+                left_m.remove(d)
+                dev(d, c, False)
+            else:
+                dev(d, c, True)          # the model does not show this deviation on this text
         if not devs:
             c12["conforming"] += 1
 
@@ -948,7 +1002,7 @@ def main():
         if k != "T":
             mismatches.append((v.id, "c08", "rewrite %s: the tree of the rewritten text is not the model's rewritten tree (%s)  %s" % (name, k, excerpt(v.data))))
         if "model" not in v.visit or v.visit["model"]["errors"]:
-            dev("C08:%s:rejected" % name, v)
+            dev("C08:%s:rejected" % name, v, s != "F")
             if s != "F":
                 mismatches.append((v.id, "c08", "rewrite %s: real visitor rejects, same_meaning = %s" % (name, s)))
             continue
@@ -970,6 +1024,7 @@ def main():
     cli_check(cases, rng, a.cli, mismatches, cli)
 
     # ---------------------------------------------------------------- report
+    settle_deviations()
     kinds = collections.Counter(c.kind.split(":")[0] + (":" + c.kind.split(":")[1] if c.kind.startswith(("sem:", "c08:")) else "") for c in cases)
     new = sorted(d for d in deviations if not is_known(d))
     print("seed %d  texts %d  parsed and given to the model %d  compared %d  (real side %.1fs, total %.1fs)" % (
@@ -997,7 +1052,7 @@ def main():
     print("mismatches: %d   new deviations: %d" % (len(mismatches), len(new)))
     report = {"seed": a.seed, "texts": len(cases), "compared": n_cmp, "kinds": kinds, "outcomes": outcome_count, "C12": c12, "C11": c11,
               "C08": c08, "c08_noop": c08_noop, "locality": locality, "cli": cli,
-              "deviations": {d: {"count": deviations[d], "known": is_known(d), "example": examples[d],
+              "deviations": {d: {"count": deviations[d], "known": is_known(d), "example": examples[d], "text": full_text.get(d),
                                  "description": next((KNOWN[k] for k in KNOWN if d == k or __import__("fnmatch").fnmatchcase(d, k)), None)}
                              for d in sorted(deviations)},
               "mismatches": [{"text": cid, "what": what, "msg": msg} for cid, what, msg in mismatches[:200]],
